@@ -1664,7 +1664,18 @@ def run(ctx):
                 '(in sequence, re-created, created first and called later, interleaved, numbered after overwrite and the reverse), files '
                 'written / removed by the environment between calls, a call with nothing to write, an exception in the middle; a fixed set '
                 'of such histories (wvti_stress, log_stress) runs on every seed, every second random history is widened the same way; after '
-                'EVERY event the names and bytes of ALL files are compared with the model.  Structured cases draw domains with '
+                'EVERY event the names and bytes of ALL files are compared with the model.  Events also include reset() and sensitivity() '
+                'of a module or of the Network around it (the response -> sensitivity -> reset loop of every optimiser, reset before the '
+                'first / after the last call, repeated, of the OTHER instance), responses through Network.response(); in the model they are '
+                'events that change nothing (C20_log_reset_changes_nothing, C20_wvti_reset_changes_nothing), so header, rows, iteration '
+                'numbers and file names must be those of the calls alone.  LARGE arrays on every seed (big_stress): element fields of '
+                '16384 / 16512 / 16900 entries (128x128, 129x128, 130x130), padded nodal vector fields on 5625 / 7381 nodes (also as block), '
+                '3-D nodal vectors and a 6-component element field with > 65536 bytes per array, arrays of 2^k - 1, 2^k, 2^k + 1 float32 '
+                'values for k = 12..16 (10..17 thorough: all three base64 paddings at every boundary), WriteToVTI histories with such arrays '
+                'and reset(); their values are periodic with single entries replaced around every 2^k-th entry, which lets the harness hand '
+                'ALL bytes of inputs, files and base64 blocks to Coq in a lossless run-length form (unrle): the model file is compared '
+                'with the written file byte for byte and every block is decoded by the Coq decoder; unstructured values of the same sizes '
+                '(160x120, 131x129, 30x20x15) are read back by the oracle only.  Structured cases draw domains with '
                 'nel, nnodes not multiples of each other (2-D and 3-D), 1-4 vectors (cell/point/block, both block orientations, 2..11 '
                 'vectors per block, C/F/strided layouts, f8/f4/i8), scales, origins, element sizes, file names, overwrite modes, formats, '
                 'separators; a malformed stream (sizes that fit neither, ambiguous sizes, 3-D arrays, empty inputs, special float values, '
@@ -1675,6 +1686,10 @@ def run(ctx):
         'the value of the UInt64 block header is modelled as written (length of the base64 text); the property does not fix it',
         'array names are ASCII without XML special characters (names are not escaped by write_to_vti)',
         'ScalarToFile signals hold real scalars or C-/F-contiguous arrays; complex values and other memory layouts are not generated',
+        'arrays of more than 4096 bytes reach Coq in run-length form (pattern, repetitions), decoded inside Coq; the harness asserts that the '
+        'form is lossless; large arrays with unstructured values are checked by the oracle (python decoder) only',
+        'reset() / sensitivity() of ScalarToFile and WriteToVTI are modelled as events without effect (neither class defines _reset or '
+        '_sensitivity; Module.reset clears the sensitivities of the signals only)',
         'file system model (Model/Fs.v): regular files under normalised relative paths; the target of a module is never an existing '
         'directory; directories are not removed between construction and response; no concurrent writers (events are sequential); the '
         'files left by an exception INSIDE write_to_vti (opened, partly written) are not modelled and not compared',
